@@ -420,12 +420,12 @@ def importConds (st : St) (closes : List Pos) : List Tok → CondRes
     match t with
     | .leaf .ws _ => importConds st closes ts
     | .block .fn name body pos =>
-      if name = "layer" then
+      if lower name = "layer" then
         let st := st.tok (.leaf (.at name)) pos (some (name ++ "("))
         let st := convRpx st false body none
         let st := openTok st .curly "" pos
         importConds st (closes ++ [pos]) ts
-      else if name = "supports" then
+      else if lower name = "supports" then
         let st := st.tok (.leaf (.at name)) pos (some (name ++ "("))
         let st := openTok st .paren "" pos
         let st := convCls st body true false false
